@@ -77,6 +77,11 @@ def canon(n, bound=None):
             return ('neg', inner)
         if isinstance(n.op, ast.UAdd):
             return canon(n.operand, bound)
+        if isinstance(n.op, ast.Not) and isinstance(n.operand, ast.Compare) and len(n.operand.ops) == 1 \
+                and isinstance(n.operand.ops[0], (ast.In, ast.NotIn, ast.Is, ast.IsNot)):
+            # not (a in b) == a not in b ;  not (a is b) == a is not b
+            flip = {ast.In: ast.NotIn, ast.NotIn: ast.In, ast.Is: ast.IsNot, ast.IsNot: ast.Is}[type(n.operand.ops[0])]
+            return canon(ast.Compare(left=n.operand.left, ops=[flip()], comparators=n.operand.comparators), bound)
         return (type(n.op).__name__, canon(n.operand, bound))
     if isinstance(n, ast.BinOp):
         if isinstance(n.op, COMM_BINOPS):
@@ -119,6 +124,8 @@ def canon(n, bound=None):
         if isinstance(n.func, ast.Attribute) and n.func.attr == 'dot' and len(n.args) == 1 and not n.keywords:
             return ('MatMult', canon(n.func.value, bound), canon(n.args[0], bound))
         args = [canon(a, bound) for a in n.args]
+        if fn == 'range' and len(args) == 2 and not n.keywords and args[0] == ('K', Fraction(0)):
+            args = args[1:]         # range(0, n) == range(n)
         if fn in COMMUTATIVE_CALLS:
             args = sorted(args, key=repr)
         kws = tuple(sorted(((k.arg or '**'), canon(k.value, bound)) for k in n.keywords))
@@ -128,7 +135,12 @@ def canon(n, bound=None):
         idx = tuple(canon(e, bound) for e in sl.elts) if isinstance(sl, ast.Tuple) else (canon(sl, bound),)
         return ('Sub', canon(n.value, bound), idx)
     if isinstance(n, ast.Slice):
-        return ('Slice',) + tuple(canon(x, bound) if x is not None else None for x in (n.lower, n.upper, n.step))
+        lo, up, st = (canon(x, bound) if x is not None else None for x in (n.lower, n.upper, n.step))
+        if lo == ('K', Fraction(0)):
+            lo = None               # x[0:k] == x[:k]
+        if st == ('K', Fraction(1)):
+            st = None
+        return ('Slice', lo, up, st)
     if isinstance(n, (ast.Tuple, ast.List)):
         return ('T',) + tuple(canon(e, bound) for e in n.elts)
     if isinstance(n, ast.Set):
